@@ -370,7 +370,7 @@ def write_with_library(c, fmt='uamiv'):
     return b
 
 
-def read_with_library(b, reader='memmap'):
+def read_with_library(b, reader='memmap', endian=None):
     path = os.path.join(tmpdir(), 'r_%d_%d.bin' % (os.getpid(), np.random.randint(1 << 30)))
     with open(path, 'wb') as fh:
         fh.write(b)
@@ -378,7 +378,7 @@ def read_with_library(b, reader='memmap'):
         with lib.pnc_warnings():
             if reader == 'memmap':
                 from PseudoNetCDF.camxfiles.uamiv.Memmap import uamiv
-                f = uamiv(path)
+                f = uamiv(path, endian=endian) if endian else uamiv(path)
             else:
                 from PseudoNetCDF.camxfiles.uamiv.Read import uamiv
                 f = uamiv(path)
